@@ -202,6 +202,12 @@ Section C05.
     narrow A _ (mnt_kernels A) (mnt_of_cells c m) dim start len =
     Some (mnt_of_cells (if dim =? 0 then c else 0) (pick dim [] m)).
   Proof. exact (mnt_narrow_nonpositive_proof A). Qed.
+
+  Theorem met_narrow_nonpositive : forall (ws : list nat) (m : cellmat A) (dim start : nat) (len : Z),
+    rect_w ws m -> dim < 2 -> (len <= 0)%Z ->
+    narrow A _ (met_kernels A) (met_of_cells ws m) dim start len =
+    Some (met_of_cells (pick_ws dim [] ws) (pick dim [] m)).
+  Proof. exact (met_narrow_nonpositive_proof A). Qed.
 End C05.
 
 (* the dim argument as Python passes it: 0/-3 rows, 1/-2 columns, everything else
@@ -229,6 +235,7 @@ Print Assumptions mnt_narrow_refines.
 Print Assumptions met_narrow_refines.
 Print Assumptions narrow_whole.
 Print Assumptions mnt_narrow_nonpositive.
+Print Assumptions met_narrow_nonpositive.
 Print Assumptions normalize_dim_z_spec.
 
 (* ---------------------------------------------------------------------- *)
